@@ -91,13 +91,13 @@ SPECS = {
         r ==> response.header.rcode == Rcode::NoError || response.header.rcode == Rcode::NameError, // [C06:error_reply_discarded]
         r ==> request.questions@ == response.questions@, // [C06:reply_question_matches]""",
         "entry": "broadcast use group_eq_axioms;"},
-    "get_nxdomain_nodata_soa": {"props": ["C06"],
+    "get_nxdomain_nodata_soa": {"props": ["C06", "C07"],
         "contract": """    ensures r is Some ==> response.answers@.len() == 0,
-        r is Some ==> exists|i: int| 0 <= i < response.authority@.len() && #[trigger] response.authority@[i] == *r->Some_0, // [C06:soa_is_from_the_reply]
+        r is Some ==> exists|i: int| 0 <= i < response.authority@.len() && #[trigger] response.authority@[i] == *r->Some_0, // [C06,C07:soa_is_from_the_reply]
         r is Some ==> spec_rtype_of(r->Some_0.rtype_with_data) == RecordType::SOA,
         r is Some ==> forall|i: int| 0 <= i < response.authority@.len() && spec_rtype_of(#[trigger] response.authority@[i].rtype_with_data) == RecordType::SOA ==> response.authority@[i] == *r->Some_0, // [C06:soa_is_unique]
-        r is Some ==> is_suffix(r->Some_0.name.labels@, question.name.labels@), // [C06:soa_owner_is_ancestor_of_question]
-        r is Some ==> r->Some_0.name.labels@.len() >= current_match_count, // [C06:soa_not_above_delegation_in_use]""",
+        r is Some ==> is_suffix(r->Some_0.name.labels@, question.name.labels@), // [C06,C07:soa_owner_is_ancestor_of_question]
+        r is Some ==> r->Some_0.name.labels@.len() >= current_match_count, // [C06,C07:soa_not_above_delegation_in_use]""",
         "entry": "broadcast use group_eq_axioms;",
         "loops": {"0": {"kw": "for", "iter_name": "it__", "spec": """        invariant
             it__.seq().len() == response.authority@.len(), forall|j: int| 0 <= j < it__.seq().len() ==> *it__.seq()[j] == response.authority@[j],
@@ -107,7 +107,7 @@ SPECS = {
             "entry": "broadcast use group_eq_axioms;"}}},
     "get_better_ns_names": {"props": ["C06", "C07"], "rewrites": [R16m],
         "contract": """    ensures
-        r is Some ==> is_suffix(r->Some_0.0.labels@, target.labels@), // [C06:delegation_name_is_ancestor_of_question]
+        r is Some ==> is_suffix(r->Some_0.0.labels@, target.labels@), // [C06,C07:delegation_name_is_ancestor_of_question]
         r is Some ==> r->Some_0.0.labels@.len() > current_match_count, // [C06,C07:referral_strictly_closer]
         r is Some ==> nonempty_set(r->Some_0.1@), // [C06:delegation_has_nameservers]
         r is Some ==> r->Some_0.1@.len() <= rrs@.len(),
